@@ -541,6 +541,28 @@ def isCur (cur : List (String × Nat)) (k : String) (i : Nat) : Bool :=
 def kwSet (kw : List (String × V)) (k : String) (v : V) : List (String × V) :=
   if kw.any (·.1 == k) then kw.map (fun p => if p.1 == k then (k, v) else p) else kw ++ [(k, v)]
 
+/-- `Invoke` instances on a heap: `_cur_kwargs` dicts are mutable objects (`dicts`), an
+    instance holds its `_args` tuple (immutable) and the address of its dict -/
+structure IHeap where
+  dicts : List (List (String × Nat))
+  objs : List (List ICall × Nat)
+
+def IHeap.view (h : IHeap) (i : Nat) : Option Invoke :=
+  (h.objs[i]?).map fun o => ⟨o.1, (h.dicts[o.2]?).getD []⟩
+
+/-- `constants` / `specs` / `star` on the heap: `ret = self.__class__(self.func)` allocates,
+    `ret._cur_kwargs = dict(self._cur_kwargs)` allocates a copy, `.update(…)` writes the copy -/
+def IHeap.call (h : IHeap) (self : Nat) (c : ICall) : IHeap × Nat :=
+  match h.objs[self]? with
+  | none => (h, self)
+  | some (args, da) =>
+    ({ dicts := h.dicts ++ [setKeys ((h.dicts[da]?).getD []) c.keys args.length]
+       objs := h.objs ++ [(args ++ [c], h.dicts.length)] }, h.objs.length)
+
+def IHeap.history (h : IHeap) : List (Nat × ICall) → IHeap
+  | [] => h
+  | (i, c) :: r => ((h.call i c).1).history r
+
 /-- `Invoke.glomit`: the positional and keyword arguments `func` is called with -/
 def Invoke.evalArgs (inv : Invoke) (target : V) : Except Err (List V × List (String × V)) :=
   go inv.cur target inv.args 0 [] []
